@@ -1,3 +1,137 @@
-(* C10 — placeholder while the floor is assembled *)
-From Coq Require Import ZArith List Bool.
-From FEC Require Import Models.FileIndexOpsM Models.LogReaderM.
+(* C10 — Filtered log reads return exactly the matching messages, in file order.
+   Property theorems only; each is closed by [exact <lemma>] and followed by Print Assumptions.
+
+   MODEL: Models/LogReaderM.v [read_log fixed] = MixedLogReader.__init__ (index of the file incl. the
+   max_bytes block truncation, source-id discovery, the filter_in_place calls, original[time_range][types])
+   followed by iteration with _read_next (re-validation at the indexed offset, source test, the two
+   max_bytes tests, result assembly under the five return_* flags); FileIndex operations in
+   Models/FileIndexOpsM.v.  SPEC: [spec_read] = the messages m of the unfiltered log with
+   type_ok /\ source_ok /\ bytes_ok /\ in_time_pos, where in_time_pos decides a timed message by its own
+   (index-resolution) time and an untimed one by its position among ALL timed messages of the log. *)
+From Coq Require Import ZArith List Bool Sorted.
+From FEC Require Import Generated.LogReaderConsts Models.FileIndexOpsM Models.LogReaderM
+  Proofs.FileIndexOpsP Proofs.LogReaderP Proofs.LogReaderSpecP Proofs.LogReaderExamplesP.
+Import ListNotations.
+Open Scope Z_scope.
+
+(* The full-strength statement: for every well-formed log and every filter / option combination. *)
+Definition C10_read_is_filter_full : Prop :=
+  forall c f srcs types R, wf_file f -> read_log fixed c f srcs types R = Ok (spec_read c f srcs types R).
+
+(* It is false of the (faithful model of the) code in exactly the two ways recorded as known findings:
+   a time bound on a log without any P1 time raises IndexError, and source ids are discovered from a
+   sample.  Witness replayed on the implementation by the check (KNOWN-FINDING lines). *)
+Theorem C10_read_is_filter_full_refuted : ~ C10_read_is_filter_full.
+Proof. exact read_is_filter_full_refuted. Qed.
+Print Assumptions C10_read_is_filter_full_refuted.
+
+Theorem C10_known_findings_witnesses :
+  read_log fixed (cfg_of None false true false true false) ex3_file None None (Some (rel_range None (Some 240))) = Err IndexError /\
+  length (spec_read (cfg_of None false true false true false) ex3_file None None (Some (rel_range None (Some 240)))) = 3%nat /\
+  (exists l, read_log fixed (cfg_of None false true false true false) ex4_file (Some [1; 2]) None None = Ok l /\ length l = 11%nat) /\
+  length (spec_read (cfg_of None false true false true false) ex4_file (Some [1; 2]) None None) = 12%nat.
+Proof. exact known_findings_witnesses. Qed.
+Print Assumptions C10_known_findings_witnesses.
+
+(* What is proved: the same statement under the two hypotheses that exclude those findings —
+   [range_has_t0]: a time range with a bound needs a P1 time among the indexed messages;
+   [discovery_complete]: the source filter left by the discovery step agrees with the request on the log.
+   Everything else is unrestricted: all logs, all type sets, source sets, ranges (absolute, relative,
+   preset t0, open ends), every max_bytes (incl. the block truncation of the index), all 32 return_* options.
+   The conclusion includes that the constructor and the iteration raise nothing. *)
+Theorem C10_read_is_filter_partial : forall c f srcs types R,
+  wf_file f -> range_has_t0 c f R -> discovery_complete (with_range c R) f srcs ->
+  read_log fixed c f srcs types R = Ok (spec_read c f srcs types R).
+Proof. exact read_is_filter_thm. Qed.
+Print Assumptions C10_read_is_filter_partial.
+
+(* With no filter at all every message of the log (hence every source) is returned, in file order. *)
+Theorem C10_unfiltered_is_log : forall c f, wf_file f ->
+  exists l, read_log fixed (no_limit c) f None None None = Ok l /\ map fst l = f_msgs f.
+Proof. exact unfiltered_is_log. Qed.
+Print Assumptions C10_unfiltered_is_log.
+
+(* The result of combined filters is the intersection of the results of each filter alone, and a
+   subsequence (file order) of the unfiltered read. *)
+Theorem C10_combined_is_intersection : forall c f srcs types R,
+  wf_file f -> range_has_t0 c f R ->
+  discovery_complete (with_range c R) f srcs -> discovery_complete (with_range (no_limit c) None) f srcs ->
+  exists l lt ls lb lr lu,
+    read_log fixed c f srcs types R = Ok l /\
+    read_log fixed (no_limit c) f None types None = Ok lt /\
+    read_log fixed (no_limit c) f srcs None None = Ok ls /\
+    read_log fixed c f None None None = Ok lb /\
+    read_log fixed (no_limit c) f None None R = Ok lr /\
+    read_log fixed (no_limit c) f None None None = Ok lu /\
+    (forall x, In x l <-> In x lt /\ In x ls /\ In x lb /\ In x lr) /\
+    subseq l lu /\ map fst lu = f_msgs f.
+Proof. exact combined_is_intersection_thm. Qed.
+Print Assumptions C10_combined_is_intersection.
+
+(* Time bounds on a P1-timed message (time t in eighths of a second; true_t0 = 0 for an absolute range,
+   else the caller's t0, else the first P1 time of the log):
+   exact when t0 and both bounds are whole seconds; otherwise nothing 2 s (16 eighths) or more outside the
+   requested interval is admitted and nothing 1 s (8 eighths) or more inside it is omitted. *)
+Theorem C10_time_bounds : forall msgs r pre m t,
+  m_time m = Some t ->
+  (whole (true_t0 msgs r) -> whole_o (tr_start r) -> whole_o (tr_end r) ->
+     in_time_pos (spec_window msgs (Some r)) pre m = in_interval (true_t0 msgs r) r t) /\
+  (in_time_pos (spec_window msgs (Some r)) pre m = true ->
+     (match tr_start r with Some s => true_t0 msgs r + s - 16 < t | None => True end) /\
+     (match tr_end r with Some e => t < true_t0 msgs r + e + 16 | None => True end)) /\
+  ((match tr_start r with Some s => true_t0 msgs r + s + 8 <= t | None => True end) ->
+   (match tr_end r with Some e => t < true_t0 msgs r + e - 8 | None => True end) ->
+   in_time_pos (spec_window msgs (Some r)) pre m = true).
+Proof. exact time_bounds_thm. Qed.
+Print Assumptions C10_time_bounds.
+
+(* A range lying entirely after the P1 times of the log, or (with a start) entirely before them, selects nothing. *)
+Theorem C10_range_outside_returns_nothing : forall msgs w pre m rest,
+  msgs = pre ++ m :: rest ->
+  ((exists L, fst w = Some L /\ forall x t, In x msgs -> m_time x = Some t -> t / 8 < L) \/
+   (exists L H, fst w = Some L /\ snd w = Some H /\ forall x t, In x msgs -> m_time x = Some t -> H <= 8 * (t / 8))) ->
+  in_time_pos w pre m = false.
+Proof. exact range_outside_thm. Qed.
+Print Assumptions C10_range_outside_returns_nothing.
+
+(* For every combination of the five return_* options (c ranges over all of them) the call succeeds and each
+   yielded list consists of the selected pieces in the documented order header, payload, bytes, offset,
+   message index: header and payload are those of message m, the bytes are file[m_off, m_off + m_size),
+   the offset is m_off and the index is m's ordinal among all messages of the file. *)
+Theorem C10_result_pieces_consistent : forall c f srcs types R,
+  wf_file f -> range_has_t0 c f R -> discovery_complete (with_range c R) f srcs ->
+  exists l, read_log fixed c f srcs types R = Ok l /\
+    forall m ps, In (m, ps) l ->
+      exists pre rest, f_msgs f = pre ++ m :: rest /\
+        ps = select5 (flags_of c) [PHeader m; PPayload m; PBytes (m_off m) (m_size m); POffset (m_off m); PIndex (zlen pre)] /\
+        length ps = nflags c.
+Proof. exact result_pieces_thm. Qed.
+Print Assumptions C10_result_pieces_consistent.
+
+(* The index operation behind the time filter: on an index whose P1 times do not decrease, __getitem__
+   returns the position-defined selection for every key (shared with C11). *)
+Theorem C10_getitem_is_position_filter : forall fi k, times_sorted (fi_data fi) -> getitem fixed fi k = spec_getitem fi k.
+Proof. exact getitem_spec. Qed.
+Print Assumptions C10_getitem_is_position_filter.
+
+(* Non-vacuity: a concrete log (E P1 E P2 E P3 E U) and filter combination meet every hypothesis, and the model
+   returns the one Event between the Pose at 2 s and the Pose at 3 s with all five pieces. *)
+Example C10_nonvacuous :
+  (wf_file ex_file /\ range_has_t0 ex_c ex_file ex_R /\ discovery_complete (with_range ex_c ex_R) ex_file (Some [0]) /\
+   discovery_complete (with_range ex_c None) ex2_file (Some [5])) /\
+  read_log fixed ex_c ex_file (Some [0]) (Some [13004]) ex_R
+  = Ok [(mkM 424 48 13004 0 None,
+         [PHeader (mkM 424 48 13004 0 None); PPayload (mkM 424 48 13004 0 None); PBytes 424 48; POffset 424; PIndex 4])].
+Proof. exact (conj ex_hypotheses ex_read_result). Qed.
+
+(* What the code did before the four repairs made for this property (each found by the check first). *)
+Theorem C10_legacy_refuted :
+  read_log legacy (cfg_of None true false false true false) ex_file None None None = Err UnboundLocalError /\
+  (exists l, read_log legacy (cfg_of None false true false true false) ex_file None None (Some (abs_range (Some 80) (Some 160))) = Ok l /\ length l = 8%nat) /\
+  spec_read (cfg_of None false true false true false) ex_file None None (Some (abs_range (Some 80) (Some 160))) = [] /\
+  (exists l, read_log legacy (cfg_of None false true false true false) ex_file None (Some [13004]) (Some (abs_range (Some 16) (Some 24))) = Ok l /\ length l = 4%nat) /\
+  length (spec_read (cfg_of None false true false true false) ex_file None (Some [13004]) (Some (abs_range (Some 16) (Some 24)))) = 1%nat /\
+  read_log legacy (cfg_of None false true false true false) ex2_file (Some [5]) None None = Ok [] /\
+  length (spec_read (cfg_of None false true false true false) ex2_file (Some [5]) None None) = 2%nat.
+Proof. exact legacy_read_refuted. Qed.
+Print Assumptions C10_legacy_refuted.
